@@ -1,0 +1,60 @@
+//go:build verif
+
+package kessoku
+
+import (
+	vs "github.com/mazrean/kessoku/internal/verifspec"
+)
+
+// ---------------------------------------------------------------------------
+// C01 / C02 / C03: from the plan (pools of nodes) to the statement IR the emitters consume.
+// ---------------------------------------------------------------------------
+
+func isFieldAccessNode(n *node) bool { return n.providerSpec.Type == ProviderTypeFieldAccess }
+
+// plannedNode: what Build leaves in a pool - a provider node; a field-access node has its struct argument wired.
+func plannedNode(n *node) bool {
+	return n != nil && n.providerSpec != nil &&
+		vs.Implies(isFieldAccessNode(n), len(n.providerArgs) >= 1 && n.providerArgs[0] != nil)
+}
+
+func poolPlanned(pool []*node) bool {
+	return vs.Forall(len(pool), func(i int) bool { return plannedNode(pool[i]) })
+}
+
+// stmtOfNode: s is the IR statement of provider node n - a call statement carrying the node's provider, its wired
+// arguments and its result values unchanged and in order, or a field read of the node's struct argument.
+func stmtOfNode(s InjectorStmt, n *node) bool {
+	return (isFieldAccessNode(n) && vs.TypeIs[*InjectorFieldAccessStmt](s) && vs.As[*InjectorFieldAccessStmt](s) != nil &&
+		vs.As[*InjectorFieldAccessStmt](s).StructParam == n.providerArgs[0].Param &&
+		vs.As[*InjectorFieldAccessStmt](s).Field == n.providerSpec.SourceField &&
+		((len(n.returnValues) > 0 && vs.As[*InjectorFieldAccessStmt](s).ReturnParam == n.returnValues[0]) ||
+			(len(n.returnValues) == 0 && vs.As[*InjectorFieldAccessStmt](s).ReturnParam == nil))) ||
+		(!isFieldAccessNode(n) && vs.TypeIs[*InjectorProviderCallStmt](s) && vs.As[*InjectorProviderCallStmt](s) != nil &&
+			vs.As[*InjectorProviderCallStmt](s).Provider == n.providerSpec &&
+			vs.SameSlice(vs.As[*InjectorProviderCallStmt](s).Arguments, n.providerArgs) &&
+			vs.SameSlice(vs.As[*InjectorProviderCallStmt](s).Returns, n.returnValues))
+}
+
+//kvc:contract (*Graph).buildPoolStmtsSimple
+func contract_Graph_buildPoolStmtsSimple(g *Graph, pool []*node) (stmts []InjectorStmt, err error) {
+	vs.Requires(poolPlanned(pool))
+	vs.Ensures("never_fails", err == nil)
+	vs.Ensures("one_statement_per_node_in_pool_order", len(stmts) == len(pool) &&
+		vs.Forall(len(pool), func(i int) bool { return stmtOfNode(stmts[i], pool[i]) }))
+	vs.Allocates()
+	return
+}
+
+//kvc:loop (*Graph).buildPoolStmtsSimple "for _, n := range pool"
+func inv_buildPoolStmtsSimple(pool []*node, stmts []InjectorStmt, kvcIdx int) {
+	vs.Invariant("image_so_far", len(stmts) == kvcIdx &&
+		vs.Forall(kvcIdx, func(i int) bool { return stmtOfNode(stmts[i], pool[i]) }))
+}
+
+//kvc:contract (*Graph).Build
+func contract_Graph_Build(g *Graph, metaData *MetaData, varPool *VarPool) (result *Injector, err error) {
+	vs.ModifiesAll()
+	vs.Allocates()
+	return
+}
